@@ -195,8 +195,9 @@ func init() {
 		// --- Peek (the parameter n is k on the Lean side)
 		if peek := x.Func(f, "Queue", "Peek"); peek != nil {
 			P := map[string]string{"q.head": "head", "q.n": "n", "len(q.vs)": "cap", "n": "k"}
+			x.inlineLocals(peek, "p") // single-use temporary `p := (q.head + n) % len(q.vs)`: read `return q.vs[(q.head+n)%len(q.vs)], true`
 			b := peek.Body.List
-			if x.wantStmts("Peek", b, "*", "*", "*", "return q.vs[p], true") {
+			if x.wantStmts("Peek", b, "*", "*", "*") {
 				neg := b[0].(*ast.IfStmt)
 				fs.set("peekNeg", x.CondExpr(neg.Cond, P, true), "`Peek(k)`: `if "+x.Src(neg.Cond)+"` (the Go parameter `n` is `k` here, `q.n` is `n`)")
 				if neg.Else != nil || len(neg.Body.List) != 1 {
@@ -207,10 +208,14 @@ func init() {
 				out := b[1].(*ast.IfStmt)
 				fs.set("peekOut", x.CondExpr(out.Cond, P, true), "`Peek(k)`: `if "+x.Src(out.Cond)+"` — no value")
 				x.wantStmts("Peek (out of range)", out.Body.List, "var zero T", "return zero, false")
-				if e := DefineOf(b[2], "p"); e != nil {
-					fs.set("peekIdx", x.IntExpr(e, P, false), "`Peek(k)`: `"+x.Src(b[2])+"`")
+				var ix *ast.IndexExpr
+				if r, ok := b[2].(*ast.ReturnStmt); ok && len(r.Results) == 2 && x.Src(r.Results[1]) == "true" {
+					ix, _ = r.Results[0].(*ast.IndexExpr)
+				}
+				if ix != nil && x.Src(ix.X) == "q.vs" {
+					fs.set("peekIdx", x.IntExpr(ix.Index, P, false), "`Peek(k)`: `"+x.Src(b[2])+"`")
 				} else {
-					x.fail("Peek: no `p := …`")
+					x.fail("Peek: does not end `return q.vs[…], true`")
 				}
 			}
 		}
